@@ -10,6 +10,17 @@ REPO = os.environ.get('NEATVI_REPO', '/repo')
 COQ = os.path.join(VERIF, 'coq')
 BUILD = os.path.join(VERIF, 'build')
 EVID = os.environ.get('VERIF_EVIDENCE_DIR') or os.path.join(VERIF, 'evidence')   # seed tests redirect it
+if os.path.realpath(REPO) != '/repo':
+    # a run against a scratch copy of the repository (mutation / seed testing) regenerates the
+    # generated Coq files from that copy: it works on a private copy of coq/ and build/ so that
+    # concurrent checks of /repo itself are not disturbed
+    _priv = tempfile.mkdtemp(prefix='nvpriv.', dir='/var/tmp' if os.path.isdir('/var/tmp') else None)
+    atexit.register(lambda: shutil.rmtree(_priv, ignore_errors=True))
+    shutil.copytree(COQ, os.path.join(_priv, 'coq'), symlinks=True)
+    if os.path.isdir(BUILD):
+        shutil.copytree(BUILD, os.path.join(_priv, 'build'), symlinks=True, ignore=shutil.ignore_patterns('.coq.lock'))
+    COQ = os.path.join(_priv, 'coq')
+    BUILD = os.path.join(_priv, 'build')
 GUARD = 'NEATVI_VERIF'
 REPO_OBJS = ['vi', 'ex', 'lbuf', 'mot', 'sbuf', 'ren', 'dir', 'syn', 'reg', 'led', 'uc',
              'term', 'rset', 'rstr', 'regex', 'cmd', 'tag', 'conf']
@@ -168,7 +179,7 @@ def coq_make(targets, timeout=1500):
     """Full .vo build of the given targets (and what they depend on) under the lock."""
     lock = coq_lock()
     try:
-        r = sh([os.path.join(VERIF, 'tools', 'mkcoqproject.sh')])
+        r = sh(['sh', os.path.join(VERIF, 'tools', 'mkcoqproject.sh'), COQ])
         if r.returncode != 0:
             return False, 'mkcoqproject failed: ' + r.stdout
         try:
